@@ -5,8 +5,15 @@ Deductive part: reader glue of Atoms.load_p1_cif against an abstract CIF block (
   * Cartesian coordinate tags take precedence, else fractional, else the load fails;
   * fractional coordinates are reduced modulo 1 *before* they are multiplied by the cell, and only when fractional tags were used and a cell is
     present -- so the loaded atom is the image inside the cell (real arithmetic, arbitrary atom, arbitrary cell matrix).
-Writer loops, label generation, PyCifRW itself and the whole round trip are BOUNDED (bounded/C15.py: write -> read -> compare -> rewrite,
-comparison with ase.io.read, uncertainties in parentheses, 26 space-group names).
+Writer (prove_writer): Atoms.save_p1_cif is executed on a structure of arbitrary size (all combinations of present / absent term kinds, fractional
+and Cartesian output, no extra columns) with the PyCifRW objects replaced by recorders: the block declares P 1, carries the cell lengths and the
+angles to 4 decimals, one atom loop (label, element of atom k, coordinates of atom k to 4 decimals -- fractional = positions.dot(inv(cell)) row-wise --
+and charge, in atom order), and a bond / angle / torsion loop exactly when there are such terms, row k naming the labels of the atoms of term k
+(torsions: dihedrals followed by impropers); the text is written once.
+Reader (prove_term_decode): the label -> index decoding statements of load_p1_cif, run on the columns the writer was proved to add, give back bonds,
+angles and torsions between the same atoms in order (pairwise distinct labels and the PyCifRW bridge assumed).
+Label distinctness, extra columns, PyCifRW itself, the text-level rewrite and agreement with ase are BOUNDED (bounded/C15.py: write -> read -> compare
+-> rewrite, comparison with ase.io.read, uncertainties in parentheses, 26 space-group names).
 """
 import ast
 import z3
@@ -18,9 +25,10 @@ from pyvc.models_lin import MatVal, sym_row, sym_mat3
 from pyvc.models_py import ObjS
 
 META = {
-    'level': 'other',
-    'explanation': "reader decisions (space group, coordinate tags, wrap before conversion) proved on the real AST against an abstract block; the "
-                   "round trip through PyCifRW only checked with a stated bound",
+    'level': 'proof',
+    'explanation': "reader decisions (space group, coordinate tags, wrap before conversion), the content the writer hands to PyCifRW, and the reader's "
+                   "label decoding of it (record-level round trip of bonds / angles / torsions) proved on the real AST; label distinctness, extra "
+                   "columns, PyCifRW and the text-level round trip only checked with a stated bound",
     'trusted_base': ["PyCifRW: ReadCif / CifBlock behave as a map tag -> list of strings (has_key, [], GetLoop)", "ase.geometry.cellpar_to_cell returns a 3x3 cell",
                      "A2 reals", "z3 soundness", "pyvc symbolic interpreter"],
 }
@@ -161,5 +169,374 @@ def build(S):
                           clause='Cartesian-coordinate files are not wrapped')
         S.add_interp_obligations(I)
     S.guarded('load_p1_cif wrap', run_wrap)
+    prove_writer(S)
+    prove_term_decode(S)
     S.clause('P1 check, coordinate-tag precedence, wrap-then-convert', 'PROVED (reader glue against an abstract block)')
-    S.clause('labels, loops, extra columns, uncertainties, PyCifRW, round trip, agreement with ase', 'BOUNDED (bounded/C15.py)')
+    S.clause('writer: P 1, cell, atom rows (element, coordinates to 4 decimals, charge), term loops naming the labels of their atoms, torsions = dihedrals then impropers', 'PROVED (recorder in place of PyCifRW, no extra columns)')
+    S.clause('reader: labels decode to the same atoms (bonds, angles, torsions in order)', 'PROVED (decoding statements on the proved writer columns; distinct labels and PyCifRW bridge assumed)')
+    S.clause('label distinctness, extra columns, uncertainties, PyCifRW, identical rewritten text, agreement with ase', 'BOUNDED (bounded/C15.py)')
+
+
+# ------------------------------------------------------------------------------------------------
+# writer: Atoms.save_p1_cif records what it hands to PyCifRW; reader: the label -> index decoding of load_p1_cif; record-level round trip
+from pyvc.values import SymSeq, Ref
+from pyvc.interp import FuncSpec, LoopSpec
+from pyvc import models_np, models_ext
+from pyvc.models_np import mem_of
+from contracts import atoms_model as AM
+INT = z3.IntSort()
+KINDS_W = (('bond', 'bonds', 2), ('angle', 'angles', 3))
+
+
+class CifRec:
+    def __init__(self):
+        self.blocks = []
+
+
+class BlockRec:
+    def __init__(self):
+        self.sets, self.items, self.loops = [], [], []
+
+
+class FileRec:
+    def __init__(self):
+        self.writes = []
+
+
+def torsion_tags():
+    return ["_geom_torsion_atom_site_label_%d" % i for i in (1, 2, 3, 4)]
+
+
+def prove_writer(S):
+    S.function(REL, 'Atoms.save_p1_cif')
+    for fract in (True, False):
+        S.guarded('save_p1_cif[%s]' % ('fract' if fract else 'cartn'), lambda fract=fract: _writer(S, fract))
+
+
+def _writer(S, fract):
+    I = S.interp()
+    I.allow_merge = False
+    models_py.install(I)
+    models_np.install(I)
+    models_ext.install(I)
+    models_py.install_zip(I)
+    tag = "save_p1_cif[%s]" % ('fract' if fract else 'cartn')
+    st = {}
+    I.models['CifFile.CifFile'] = lambda ctx, args, kwargs: CifRec()
+    I.models['CifFile.CifBlock'] = lambda ctx, args, kwargs: st.setdefault('block', BlockRec())
+
+    def set_cif(ctx, cont, idx, v):
+        cont.blocks.append((idx[1], v))
+        return cont
+    I.models['setitem:CifRec'] = set_cif
+
+    def set_block(ctx, cont, idx, v):
+        cont.sets.append((idx[1], v))
+        return cont
+    I.models['setitem:BlockRec'] = set_block
+
+    def m_additem(ctx, recv, args, kwargs, f):
+        if isinstance(recv, BlockRec):
+            recv.items.append((args[0], args[1]))
+            return None
+        return NotImplemented
+    I.models['method.AddItem'] = m_additem
+
+    def m_createloop(ctx, recv, args, kwargs, f):
+        if isinstance(recv, BlockRec):
+            recv.loops.append(list(args[0]))
+            return None
+        return NotImplemented
+    I.models['method.CreateLoop'] = m_createloop
+
+    def m_writeout(ctx, recv, args, kwargs, f):
+        if isinstance(recv, CifRec):
+            return Opaque(z3.Const('cif_text', ObjS), 'text')
+        return NotImplemented
+    I.models['method.WriteOut'] = m_writeout
+
+    def m_write(ctx, recv, args, kwargs, f):
+        if isinstance(recv, FileRec):
+            recv.writes.append(args[0])
+            return None
+        return NotImplemented
+    I.models['method.write'] = m_write
+    cellpar = [I.reg.ufunc('cellpar_%s' % n, REAL) for n in ('a', 'b', 'c', 'alpha', 'beta', 'gamma')]
+    I.models['%s:Atoms.cell_abc_alpha_beta_gamma' % REL] = lambda ctx, args, kwargs: tuple(Sym(f()) for f in cellpar)
+    I.models['numpy.linalg.inv'] = lambda ctx, args, kwargs: Opaque(z3.Const('cell_inv', ObjS), 'inv')
+    fracf = [I.reg.ufunc('fractional_coordinate_%s' % c, REAL, REAL, REAL, REAL) for c in 'xyz']
+
+    def m_dot(ctx, recv, args, kwargs, f):
+        if isinstance(recv, SymSeq) and recv.width == 3 and len(args) == 1 and isinstance(args[0], Opaque):
+            I.reg.assumptions_used.add("numpy: positions.dot(inv(cell)) is row-wise (fractional coordinates of each atom)")
+            cols = [z3.Array(I.reg.fresh('frac_%s' % c), INT, REAL) for c in 'xyz']
+            k = z3.Int(I.reg.fresh('k'))
+            row = [z3.Select(c, k) for c in recv.cols]
+            for cn, fc in zip(cols, fracf):
+                I.assume(z3.ForAll([k], z3.Implies(z3.And(k >= 0, k < recv.length), z3.Select(cn, k) == fc(*row)), patterns=[z3.Select(cn, k)]))
+            return SymSeq(recv.length, cols, 3, 'ndarray', 'fractional_coords')
+        return NotImplemented
+    I.models['method.dot'] = m_dot
+
+    def attr_T(ctx, obj):
+        if isinstance(obj, SymSeq) and obj.width is not None:
+            return [SymSeq(obj.length, [c], None, 'ndarray', '%s.T[%d]' % (obj.name, i)) for i, c in enumerate(obj.cols)]
+        if isinstance(obj, SymSeq) and getattr(obj, 'zero_width', False):
+            return []
+        return NotImplemented
+    I.models['attr.T'] = attr_T
+    prev_list = I.models.get('list.fallback')
+    I.models['numpy.array'] = lambda ctx, args, kwargs: args[0]
+
+    def m_extend(ctx, recv, args, kwargs, f):
+        x = args[0]
+        if isinstance(recv, list) and not recv and isinstance(x, SymSeq):
+            I.lib.rebind(ctx, f, x)
+            return None
+        if isinstance(recv, SymSeq) and isinstance(x, SymSeq) and recv.width == x.width:
+            I.lib.rebind(ctx, f, models_np.np_append(ctx, [recv, x], {'axis': 0}))
+            return None
+        return NotImplemented
+    I.models['method.extend'] = m_extend
+    # the per-element running counters of the label loop: an uninterpreted map (labels are treated as opaque strings, their distinctness is assumed)
+    cnt = I.reg.ufunc('label_counter_value', ObjS, StrS, INT)
+    upd = I.reg.ufunc('label_counter_update', ObjS, StrS, INT, ObjS)
+    I.models['getitem:Opaque'] = lambda ctx, cont, idx: Sym(cnt(cont.term, to_z3(idx[1])))
+    I.models['setitem:Opaque'] = lambda ctx, cont, idx, v: Opaque(upd(cont.term, to_z3(idx[1]), to_z3(v)), 'counters')
+    I.funcspecs['%s:Atoms.save_p1_cif' % REL] = FuncSpec(loops=[LoopSpec('e in self.elements', inv=lambda view, k: [('one-label-per-atom-so-far', view['atom_labels'].length == (k if z3.is_expr(k) else z3.IntVal(k)))],
+                                                                           havoc_types={'atom_labels': 'str'}, extra_modifies=('d',),
+                                                                           convert={'d': lambda I_, v: Opaque(z3.Const('label_counters', ObjS), 'counters')})])
+    clo = I.closure_for(REL, 'Atoms.save_p1_cif')
+
+    def thunk():
+        st.clear()
+        ref, f = AM.make_atoms(I, 'self')
+        N = f['positions'].length
+        I.assume(AM.wf_sizes(f))
+        for k, _ in AM.KINDS:
+            I.assume(AM.all_in_range(f[AM.PLURAL[k]], 0, N, 'rq_' + k))
+        I.assume(AM.all_in_range(f['atom_types'], 0, f['atom_type_elements'].length, 'rq_types'))
+        heap = I.state.heap[ref.oid]
+        for k in ('atom', 'bond', 'angle', 'dihedral', 'improper'):
+            heap['extra_%s_labels' % k] = []                    # this contract: no extra columns (they are exercised by the bounded stage)
+            z = SymSeq(heap['extra_%s_fields' % k].length, [], None, 'ndarray', 'extra_%s_fields' % k)
+            z.zero_width = True
+            heap['extra_%s_fields' % k] = z
+        frec = FileRec()
+        I.call_closure(clo, [ref, frec], {'use_fract_coords': fract})
+        return f, st.get('block'), frec, I.state.lookup_local('atom_labels') if hasattr(I.state, 'lookup_local') else None
+
+    paths = I.explore(thunk, max_paths=300)
+    nret = 0
+    for pi, p in enumerate(paths):
+        if p.outcome == 'loopend':
+            continue
+        if p.outcome != 'return':
+            raise OutOfSubset("save_p1_cif raises %r" % (p.value,))
+        nret += 1
+        f, blk, frec, _ = p.value
+        if blk is None:
+            raise OutOfSubset("no CIF block was created")
+        N = f['positions'].length
+        k = z3.Int('wk')
+        sets = dict((key, v) for key, v in blk.sets if isinstance(key, str))
+        S.add(I, "%s/space-group-is-declared-P1#%d" % (tag, pi), p.pc, z3.BoolVal(sets.get(SG) == 'P 1'), clause='the file declares space group P 1')
+        cell_ok = all(('_cell_length_' + n) in sets for n in 'abc') and all(('_cell_angle_' + n) in sets for n in ('alpha', 'beta', 'gamma'))
+        if cell_ok:
+            goal = [to_z3(sets['_cell_length_' + n], sort=REAL) == fpar() for n, fpar in zip('abc', cellpar[:3])]
+            fmt4 = I.reg.ufunc('fmt[%.4f]', REAL, StrS)
+            goal += [to_z3(sets['_cell_angle_' + n]) == fmt4(fpar()) for n, fpar in zip(('alpha', 'beta', 'gamma'), cellpar[3:])]
+            S.add(I, "%s/cell-lengths-and-angles-are-those-of-the-cell#%d" % (tag, pi), p.pc, z3.And(*goal), clause='cell lengths and angles (angles to 4 decimals)')
+        else:
+            S.add(I, "%s/cell-tags-written#%d" % (tag, pi), p.pc, z3.BoolVal(False))
+        items = dict(blk.items)
+        loops = blk.loops
+        coord_tags = ["_atom_site_fract_x", "_atom_site_fract_y", "_atom_site_fract_z"] if fract else ["_atom_site_Cartn_x", "_atom_site_Cartn_y", "_atom_site_Cartn_z"]
+        atom_loop = ["_atom_site_label", "_atom_site_type_symbol"] + coord_tags + ["_atom_site_charge"]
+        S.add(I, "%s/atom-loop-has-label-element-coordinates-charge#%d" % (tag, pi), p.pc, z3.BoolVal(bool(loops) and loops[0] == atom_loop and all(t in items for t in atom_loop)),
+              clause='one atom loop: label, element, coordinates (fractional / Cartesian as requested), charge')
+        if not (loops and loops[0] == atom_loop and all(t in items for t in atom_loop)):
+            continue
+        labels = items["_atom_site_label"]
+        if not isinstance(labels, SymSeq):
+            raise OutOfSubset("atom labels are not a list built in the label loop")
+        els = items["_atom_site_type_symbol"]
+        goal = [labels.length == N, els.length == N,
+                z3.ForAll([k], z3.Implies(z3.And(k >= 0, k < N), z3.Select(els.cols[0], k) == z3.Select(f['atom_type_elements'].cols[0], z3.Select(f['atom_types'].cols[0], k))))]
+        fmt4 = I.reg.ufunc('fmt[%.4f]', REAL, StrS)
+        row = [z3.Select(c, k) for c in f['positions'].cols]
+        for ci, t in enumerate(coord_tags):
+            col = items[t]
+            want = fmt4(fracf[ci](*row)) if fract else fmt4(row[ci])
+            goal += [col.length == N, z3.ForAll([k], z3.Implies(z3.And(k >= 0, k < N), z3.Select(col.cols[0], k) == want))]
+        ch = items["_atom_site_charge"]
+        goal += [z3.BoolVal(ch is f['charges'] or (isinstance(ch, SymSeq) and ch.cols[0] is f['charges'].cols[0]))]
+        S.add(I, "%s/atom-rows-state-element-coordinates-charge-of-atom-k#%d" % (tag, pi), p.pc, z3.And(*goal),
+              clause='atom row k: element of atom k, its coordinates to 4 decimals, its charge, in atom order')
+        # term loops
+        four = None
+        for kind, pl, w in KINDS_W + (('torsion', None, 4),):
+            tags_ = ["_geom_%s_atom_site_label_%d" % (kind, i + 1) for i in range(w)]
+            present = tags_ in loops
+            if kind != 'torsion':
+                arr = f[pl]
+                S.add(I, "%s/%s-loop-written-iff-there-are-%s#%d" % (tag, kind, pl, pi), p.pc, (arr.length > 0) == z3.BoolVal(present), clause='a term loop is written iff there are terms of that kind')
+                rows = arr
+                nrows = arr.length
+                entry = lambda c, kk: z3.Select(arr.cols[c], kk)
+            else:
+                dh, im = f['dihedrals'], f['impropers']
+                S.add(I, "%s/torsion-loop-written-iff-there-are-dihedrals-or-impropers#%d" % (tag, pi), p.pc, z3.Or(dh.length > 0, im.length > 0) == z3.BoolVal(present),
+                      clause='the torsion loop is written iff there are dihedrals or impropers')
+                nrows = dh.length + im.length
+                entry = lambda c, kk: z3.If(kk < dh.length, z3.Select(dh.cols[c], kk), z3.Select(im.cols[c], kk - dh.length))
+            if not present:
+                continue
+            goal = []
+            for c, t in enumerate(tags_):
+                col = items.get(t)
+                if not isinstance(col, SymSeq):
+                    goal.append(z3.BoolVal(False))
+                    continue
+                goal += [col.length == nrows, z3.ForAll([k], z3.Implies(z3.And(k >= 0, k < nrows), z3.Select(col.cols[0], k) == z3.Select(labels.cols[0], entry(c, k))))]
+            S.add(I, "%s/%s-row-k-names-the-labels-of-its-atoms#%d" % (tag, kind, pi), p.pc, z3.And(*goal),
+                  clause='row k of a term loop names the labels of the atoms of term k (torsions: dihedrals followed by impropers)')
+        S.add(I, "%s/text-written-once#%d" % (tag, pi), p.pc, z3.BoolVal(len(frec.writes) == 1 and isinstance(frec.writes[0], Opaque)), clause='the file text is written once')
+        S.add_canary(I, "%s/canary#%d" % (tag, pi), [h for h in p.pc if not z3.is_quantifier(h)])
+    if nret == 0:
+        raise OutOfSubset("save_p1_cif has no complete path")
+    S.add_interp_obligations(I)
+
+
+class BlockRd:
+    """What PyCifRW hands back for a file written by save_p1_cif (bridge, assumed): the columns that were added, loop by loop."""
+
+    def __init__(self, items, loops):
+        self.items, self.loops = items, loops
+
+
+class AllOfRd:
+    def __init__(self, items):
+        self.items = items
+
+
+def prove_term_decode(S):
+    S.guarded('load_p1_cif term decoding', lambda: _term_decode(S))
+
+
+def _term_decode(S):
+    I = S.interp()
+    I.allow_merge = False
+    models_py.install(I)
+    models_np.install(I)
+    models_py.install_zip(I)
+    mod = I.module(REL)
+    fn = mod.find('Atoms.load_p1_cif')
+    body = fn.body
+    defs = [s for s in body if isinstance(s, ast.FunctionDef)]
+    start = next((k for k, s in enumerate(body) if isinstance(s, ast.Assign) and ast.unparse(s) == 'bonds = []'), None)
+    end = next((k for k, s in enumerate(body) if isinstance(s, ast.Assign) and ast.unparse(s) == 'cell = None'), None)
+    if start is None or end is None or end <= start:
+        raise OutOfSubset("term decoding statements of load_p1_cif not found (contract no longer applies)")
+    block = defs + body[start:end]
+    tag = "load_p1_cif/terms"
+    I.models['method.has_key'] = lambda ctx, recv, args, kwargs, f: (args[0] in recv.items) if isinstance(recv, BlockRd) else NotImplemented
+    I.models['getitem:BlockRd'] = lambda ctx, cont, idx: cont.items[idx[1]]
+    I.models['numpy.array'] = lambda ctx, args, kwargs: AllOfRd(args[0])
+    I.models['method.all'] = lambda ctx, recv, args, kwargs, f: all(bool(x) for x in recv.items) if isinstance(recv, AllOfRd) else NotImplemented
+    I.models['method.GetLoop'] = lambda ctx, recv, args, kwargs, f: ({t: None for t in next(l for l in recv.loops if args[0] in l)} if isinstance(recv, BlockRd) else NotImplemented)
+    I.models['ordered_set.OrderedSet'] = lambda ctx, args, kwargs: list(dict.fromkeys(I.lib.concrete_iter(ctx, args[0])))
+
+    def m_binop(ctx, op, a, b):
+        if op == 'Sub' and isinstance(a, list) and isinstance(b, (set, frozenset)):
+            return [x for x in a if x not in b]
+        raise OutOfSubset("binary %s on %r and %r" % (op, type(a).__name__, type(b).__name__))
+    I.models['binop.fallback'] = m_binop
+
+    def m_index(ctx, recv, x):
+        if not (isinstance(recv, SymSeq) and recv.width is None):
+            raise OutOfSubset("index on %r" % (recv,))
+        I.reg.assumptions_used.add("python: list.index(x) is the first position holding x (ValueError if there is none)")
+        mem = mem_of(I, recv)
+        xz = to_z3(x, sort=recv.elem_sort())
+        I.oblige("%s/safety/label-names-an-atom" % ctx.speckey, mem(xz), 'safety')
+        first = I.reg.ufunc('first_index_of_label', recv.elem_sort(), INT)
+        j = z3.Int(I.reg.fresh('j'))
+        I.assume(z3.And(first(xz) >= 0, first(xz) < recv.length, z3.Select(recv.cols[0], first(xz)) == xz))
+        I.assume(z3.ForAll([j], z3.Implies(z3.And(j >= 0, j < first(xz)), z3.Select(recv.cols[0], j) != xz), patterns=[z3.Select(recv.cols[0], j)]))
+        return Sym(first(xz))
+    I.models['list.index'] = m_index
+    I.models['method.keys'] = lambda ctx, recv, args, kwargs, f: list(recv.keys()) if isinstance(recv, dict) else NotImplemented
+
+    def thunk():
+        ref, f = AM.make_atoms(I, 'written')
+        N = f['positions'].length
+        for k, _ in AM.KINDS:
+            I.assume(AM.all_in_range(f[AM.PLURAL[k]], 0, N, 'rq_' + k))
+        labels = SymSeq(N, [z3.Array('atom_labels', INT, StrS)], None, 'list', 'atom_labels')
+        I.assume(AM.pairwise_distinct(labels, 'lbl'))
+        I.reg.assumptions_used.add("atom labels written by save_p1_cif (element symbol + running count per element) are pairwise distinct (bounded stage exercises it)")
+        I.reg.assumptions_used.add("bridge (PyCifRW, not interpreted): reading a file written by save_p1_cif hands back the loops and columns that were added")
+        items, loops = {'_atom_site_label': labels}, [['_atom_site_label']]
+        k = z3.Int('ck')
+
+        def column(name, n, idx_of):
+            a = z3.Array(name, INT, StrS)
+            I.assume(z3.ForAll([k], z3.Implies(z3.And(k >= 0, k < n), z3.Select(a, k) == z3.Select(labels.cols[0], idx_of(k))), patterns=[z3.Select(a, k)]))
+            return SymSeq(n, [a], None, 'list', name)
+        present = {}
+        for kind, pl, w in KINDS_W:
+            arr = f[pl]
+            on = I.branch(arr.length > 0)
+            present[kind] = on
+            if on:
+                tags_ = ["_geom_%s_atom_site_label_%d" % (kind, i + 1) for i in range(w)]
+                for c, t in enumerate(tags_):
+                    items[t] = column('col_%s_%d' % (kind, c), arr.length, lambda kk, c=c, arr=arr: z3.Select(arr.cols[c], kk))
+                loops.append(tags_)
+        dh, im = f['dihedrals'], f['impropers']
+        on = I.branch(z3.Or(dh.length > 0, im.length > 0))
+        present['torsion'] = on
+        if on:
+            tags_ = torsion_tags()
+            for c, t in enumerate(tags_):
+                items[t] = column('col_torsion_%d' % c, dh.length + im.length,
+                                  lambda kk, c=c: z3.If(kk < dh.length, z3.Select(dh.cols[c], kk), z3.Select(im.cols[c], kk - dh.length)))
+            loops.append(tags_)
+        blk = BlockRd(items, loops)
+        ctx = I.block_ctx(REL, 'Atoms.load_p1_cif', {'block': blk, 'atom_name': labels})
+        ctx.exec_block(block)
+        return f, present, {n: ctx.lookup(n) for n in ('bonds', 'angles', 'dihedrals')}
+
+    paths = I.explore(thunk, max_paths=100)
+    nret = 0
+    for pi, p in enumerate(paths):
+        if p.outcome != 'return':
+            raise OutOfSubset("term decoding raises %r" % (p.value,))
+        nret += 1
+        f, present, got = p.value
+        k = z3.Int('dk')
+        for kind, pl, w in KINDS_W + (('torsion', 'dihedrals', 4),):
+            g = got[pl]
+            if kind == 'torsion':
+                dh, im = f['dihedrals'], f['impropers']
+                n = dh.length + im.length
+                want = lambda c, kk: z3.If(kk < dh.length, z3.Select(dh.cols[c], kk), z3.Select(im.cols[c], kk - dh.length))
+            else:
+                n = f[pl].length
+                want = lambda c, kk, pl=pl: z3.Select(f[pl].cols[c], kk)
+            if not present[kind]:
+                S.add(I, "%s/%s-none-read-when-none-written#%d" % (tag, kind, pi), p.pc, z3.And(n == 0, z3.BoolVal(isinstance(g, list) and g == [])), clause='no loop: no terms of that kind')
+                continue
+            if not (isinstance(g, SymSeq) and len(g.cols) == w):
+                S.add(I, "%s/%s-read-as-index-tuples#%d" % (tag, kind, pi), p.pc, z3.BoolVal(False))
+                continue
+            S.add(I, "%s/roundtrip/%s-between-the-same-atoms#%d" % (tag, kind, pi), p.pc,
+                  z3.And(g.length == n, z3.ForAll([k], z3.Implies(z3.And(k >= 0, k < n), z3.And(*[z3.Select(g.cols[c], k) == want(c, k) for c in range(w)])))),
+                  clause='reading back gives bonds, angles and torsions (dihedrals followed by impropers) between the same atoms, in order')
+        S.add_canary(I, "%s/canary#%d" % (tag, pi), [h for h in p.pc if not z3.is_quantifier(h)])
+        if pi == 0:
+            S.add_probe(I, "%s/probe/hypotheses-consistent#%d" % (tag, pi), p.pc)
+    if nret == 0:
+        raise OutOfSubset("term decoding has no normal path")
+    S.add_interp_obligations(I)
